@@ -118,17 +118,33 @@ def check_doc(text, exp, fspecs, acc):
         acc.count("oracle_disagreements" if exp is not None else "extra_doc_not_in_dialect")
         return
     nontrivial = any(b[0] != "implicit" for b in rec)
-    for spec in fspecs:
-        case = {"text": text, "format": list(spec)}
+    try:
+        shared = bibtexparser.parse_string(text)  # written again and again below: writing must leave it alone
+        shared_canon = canon(shared)
+    except Exception as e:
+        acc.exception(e, {"text": text}, "parse_string", size=len(text))
+        return
+    for n, spec in enumerate(fspecs):
+        case = {"text": text, "format": list(spec), "formats_written_before": [list(f) for f in fspecs[:n]]}
         acc.trace(4)
-        acc.case(sample=lambda: case, nontrivial_key=(text, spec) if nontrivial else None)
+        acc.case(sample=lambda: {"text": text, "format": list(spec)}, nontrivial_key=(text, spec) if nontrivial else None)
         try:
             fmt = mkformat(spec)
             fcanon = canon(fmt)
-            l1 = bibtexparser.parse_string(text)
-            before = canon(l1)
+            l1 = shared
+            before = shared_canon
             w1 = bibtexparser.write_string(l1, bibtex_format=fmt)
             after = canon(l1)
+            if n % 7 == 3:
+                # the n-th write of a library equals the first write of a fresh parse
+                w_fresh = bibtexparser.write_string(bibtexparser.parse_string(text), bibtex_format=mkformat(spec))
+                if w_fresh != w1:
+                    acc.violation(
+                        {"oracle": "repeated_write_equals_first_write"},
+                        {"case": case, "observed": w1, "expected": w_fresh},
+                        size=len(text),
+                    )
+                    return
             l2 = bibtexparser.parse_string(w1)
             w2 = bibtexparser.write_string(l2, bibtex_format=fmt)
         except Exception as e:
@@ -182,7 +198,8 @@ def run_shard(shard, tier, acc):
 
 
 def replay(case, acc):
-    check_doc(case["text"], None, [tuple(case["format"])], acc)
+    fs = [tuple(f) for f in case.get("formats_written_before", [])] + [tuple(case["format"])]
+    check_doc(case["text"], None, fs, acc)
 
 
 def unit_test(case):
